@@ -36,7 +36,9 @@ TRUST = [
     "num_mc calls of the right size and p)",
     "excluded configurations: subsample = 0, num_mc = 0, levels outside [0,1], labels other than 0/1, repeated or unknown names in "
     "rates_tracked, parallelize=True (thread scheduling of the same function body)",
-    "per-index history dictionaries (_r_stat[i], _p_table[i], ...) are not observable through the public API and are not compared",
+    "auxiliary semi-private observable: _r_stat[samples_since_reset] (the four statistics at the current index) is read after every update "
+    "when present and compared with the model (all four rates) and with the specification's closed form (tracked rates; every step in the "
+    "long pure runs, on tested steps elsewhere); older per-index history entries are not compared",
 ]
 
 RATES = ["tpr", "tnr", "ppv", "npv"]
@@ -108,7 +110,7 @@ def make_impl(LFR, cfg):
 def impl_update(tap, d, cfg, yt, yp, seed):
     """one update on the real detector; returns the observables (public API) and the captured draws"""
     if isinstance(d, str):
-        return {"state": d, "recs": "?", "total": -1, "since": -1, "nstates": -1, "last": "?", "blocks": []}
+        return {"state": d, "recs": "?", "total": -1, "since": -1, "nstates": -1, "last": "?", "blocks": [], "R": None}
     tap.take()
     np.random.seed(seed)
     try:
@@ -122,6 +124,12 @@ def impl_update(tap, d, cfg, yt, yp, seed):
                "last": core.dstr(last) if last in (None, "warning", "drift") else "X"}
     except Exception as ex:  # a mutated tree may raise anywhere
         obs = {"state": "EXC:" + type(ex).__name__, "recs": "?", "total": -1, "since": -1, "nstates": -1, "last": "?"}
+    # auxiliary, semi-private observable: the statistics at the current index (skipped when not readable)
+    try:
+        rs = d._r_stat[d.samples_since_reset]
+        obs["R"] = {r: float(rs[r]) for r in RATES}
+    except Exception:
+        obs["R"] = None
     obs["blocks"] = group(tap.take(), cfg["num_mc"])
     return obs
 
@@ -146,6 +154,7 @@ class Spec:
         self.recs = [None, None]
         self.cache = {}
         self.states = []
+        self.last_R = {}
 
     def clone(self):
         s = Spec(self.cfg)
@@ -179,10 +188,12 @@ class Spec:
         n = len(self.epoch)
         problems, margin, used = [], INF, 0
         warn = alarm = False
-        if n > c["burn_in"] and n % c["subsample"] == 0:
+        tested = n > c["burn_in"] and n % c["subsample"] == 0
+        self.last_R = {r: self.stat(r) for r in c["tracked"]} if (tested or c.get("stat_every_step")) else {}
+        if tested:
             for r in c["tracked"]:
                 rate, den = self.rate(r)
-                R = self.stat(r)
+                R = self.last_R[r]
                 key = (float(np.round(np.float64(rate), c["round_val"])), den)
                 if key not in self.cache:
                     if used >= len(blocks):
@@ -237,16 +248,20 @@ def u_line(yt, yp, blocks):
 
 def parse_model(o):
     """`<state> <recs> <total> <since> <nstates> <used> <given> <shapeok> <margin> | est:den …`"""
-    head, _, tail = o.partition("|")
+    parts = o.split("|")
+    if len(parts) != 3:
+        return None
+    head, tail, rpart = parts
     t = head.split()
-    if len(t) != 9:
+    rb = rpart.split()
+    if len(t) != 9 or len(rb) != 4:
         return None
     sims = []
     for tok in tail.split():
         e, _, dn = tok.partition(":")
         sims.append((core.b2f(e), int(dn)))
     return {"line": " ".join(t[:5]), "state": t[0], "used": int(t[5]), "given": int(t[6]), "shape": t[7] == "1",
-            "margin": core.b2f(t[8]), "sims": sims}
+            "margin": core.b2f(t[8]), "sims": sims, "R": dict(zip(RATES, (core.b2f(x) for x in rb)))}
 
 
 def exact_cfg(cfg, since):
@@ -286,6 +301,15 @@ class Runner:
                      **payload(cfg, seq, seeds, step, impl=obs_line(obs), spec=spec.line(),
                                simulations=[{"p": b["p"], "size": b["size"], "n": len(b["cols"])} for b in obs["blocks"]]))
             return False
+        if obs.get("R") is not None:
+            for r, v in spec.last_R.items():
+                ctx.count("statistic_compared(_r_stat)")
+                if not core.close(obs["R"][r], v):
+                    ctx.fail(signature={"class": "lfr-statistic"},
+                             what=f"_r_stat[{r}] = {obs['R'][r]!r} is not the exponentially weighted average over the samples of the "
+                                  f"rate's row/column of the epoch ({v!r})",
+                             **payload(cfg, seq, seeds, step, impl=obs_line(obs), spec=spec.line(), rate=r))
+                    return False
         if margin == 0.0 and exact_cfg(cfg, len(spec.epoch)):
             ctx.count("ties_at_a_bound(exact arithmetic)")
         if obs_line(obs) != spec.line() or obs["last"] != obs["state"]:
@@ -315,6 +339,38 @@ def gen_sequence(rng, n):
             ok = rng.random() < (acc1 if yt else acc0)
             seq.append((yt, yt if ok else 1 - yt))
     return seq[:n]
+
+
+LONG_CELLS = [(1, 1), (0, 0), (1, 1), (0, 0), (1, 0), (0, 1)]
+# tracked sets that contain a rate whose *numerator* cell dominates (rate close to 1), per dominating cell
+LONG_TRACKED = {(1, 1): [["tpr"], ["ppv", "tpr"], ["tpr", "tnr", "ppv", "npv"], ["ppv"]],
+                (0, 0): [["tnr"], ["npv", "tnr", "tpr"], ["npv"], ["tnr", "ppv"]],
+                (1, 0): [["tpr", "npv"], ["npv"]], (0, 1): [["tnr", "ppv"], ["ppv"]]}
+
+
+def long_case(rng, i):
+    """
+    long pure run: one epoch of 420..500 samples dominated by one confusion cell (a rate close to 0 or 1 with a denominator
+    in the hundreds, where one more sample moves the rate by ~1e-5..1e-6), burn_in in the hundreds so that no reset happens
+    first; a disagreeing sample of the same row and column is injected late (positions 330..400) so that the statistic is far from
+    its fixed point while the rate moves by tiny steps
+    """
+    if i == 0:   # the plain case: 411 correctly classified positives
+        cfg = {"eta": 0.99, "warn": 0.05, "detect": 0.05, "burn_in": 410, "num_mc": 15, "subsample": 1, "round_val": 4,
+               "tracked": ["tpr"], "stat_every_step": True}
+        return cfg, [(1, 1)] * 411
+    cell = LONG_CELLS[i % len(LONG_CELLS)]
+    warn, detect = LEVELS[int(rng.integers(len(LEVELS)))]
+    opts = LONG_TRACKED[cell]
+    cfg = {"eta": 0.99 if i % 2 else 0.9, "warn": warn, "detect": detect, "burn_in": 300 if i % 3 else 410,
+           "num_mc": 15, "subsample": int(rng.choice([1, 3])), "round_val": int(rng.choice([1, 4])),
+           "tracked": list(opts[(i // len(LONG_CELLS)) % len(opts)]), "stat_every_step": True}
+    n = int(rng.integers(420, 501))
+    noise = float(rng.choice([0.0, 0.01, 0.03]))
+    seq = [cell if rng.random() >= noise else (int(rng.integers(2)), int(rng.integers(2))) for _ in range(n)]
+    for pos in (int(rng.integers(330, 360)), int(rng.integers(370, 400))):
+        seq[pos] = (cell[0], 1 - cell[1]) if rng.random() < 0.5 else (1 - cell[0], cell[1])
+    return cfg, seq
 
 
 def random_cfg(rng, i):
@@ -358,13 +414,15 @@ def _run(ctx, LFR, tap):
     exh_len = 6
     exh_cfgs = EXH_CFGS[:3] if quick else EXH_CFGS
     exh_lens = [6] * len(exh_cfgs) if quick else [7, 7] + [6] * (len(exh_cfgs) - 2)
-    n_random = 40 if quick else 1500
+    n_random = 36 if quick else 1500
     n_twin = 24 if quick else 600
+    n_long = 10 if quick else 72
     ctx.rule = ("exhaustive: every (y_true,y_pred) sequence of length <= %d (thorough: <= 7 for the first two) (prefix tree, all 4^k nodes) for %d configurations; "
                 "random: %d piecewise-stationary sequences of length 40..300 x config menus (eta {.5,.9,.99}, 5 level pairs, burn_in {0,5,20}, "
                 "subsample {1,3}, round_val {1,4}, num_mc {15,40}, the 15 non-empty subsets of rates in given or permuted order); "
+                "long pure runs: %d histories of 411..500 samples dominated by one cell, burn_in {300,410}, eta {.9,.99}, _r_stat compared at every step; "
                 "twin: %d single-rate pairs.  A case (one update of one history) is non-trivial when the test ran (after burn_in, on a "
-                "subsample multiple); distinct = distinct (config, history prefix)") % (exh_len, len(exh_cfgs), n_random, n_twin)
+                "subsample multiple); distinct = distinct (config, history prefix)") % (exh_len, len(exh_cfgs), n_random, n_long, n_twin)
 
     # ---- A. exhaustive prefix tree
     for ci, cfg in enumerate(exh_cfgs):
@@ -420,6 +478,14 @@ def _run(ctx, LFR, tap):
             twin.append((yt, yp))
         twin_case(R, ("twin", i), cfg, seq, twin)
 
+    # ---- C2. long pure runs (extreme rate, large denominator, burn_in in the hundreds)
+    for i in range(n_long):
+        cfg, seq = long_case(rng, i)
+        tr = run_case(R, ("long", i), cfg, seq)
+        ctx.count("long.cases")
+        ctx.count("long.tested_steps", sum(1 for k in range(len(tr)) if k + 1 > cfg["burn_in"]))
+        ctx.count("long.state.D", sum(1 for o in tr if o["state"] == "D"))
+
     # ---- D. thorough: statistical sanity test of the bounds (a test, not a theorem)
     if not quick:
         bounds_sanity(ctx, LFR, tap)
@@ -431,7 +497,7 @@ def _run(ctx, LFR, tap):
     # ---- distribution sanity
     st = ctx.stats
     need = ["rnd.state.D", "rnd.state.W", "rnd.state.N", "rnd.cache_hit", "rnd.second_epoch", "exh.state.D", "exh.state.N",
-            "ties_at_a_bound(exact arithmetic)"]
+            "ties_at_a_bound(exact arithmetic)", "long.tested_steps"]
     if not ctx.failing and not ctx.mismatches:
         missing = [k for k in need if st.get(k, 0) == 0]
         if missing:
@@ -547,6 +613,11 @@ def compare_model(ctx, R, out):
             ctx.mismatch(component="lfr", case=repr(case), what="simulation schedule differs",
                          impl=[list(x) for x in impl_sims], model=[list(x) for x in m["sims"]], model_used=m["used"],
                          **payload(cfg, seq, seeds, step))
+            continue
+        if obs.get("R") is not None and any(not core.close(obs["R"][r], m["R"][r]) for r in RATES):
+            dead.add(key)
+            ctx.mismatch(component="lfr", case=repr(case), what="_r_stat (statistics of the four rates)",
+                         impl=obs["R"], model=m["R"], **payload(cfg, seq, seeds, step))
             continue
         if m["line"] != obs_line(obs):
             dead.add(key)
